@@ -73,7 +73,9 @@ theorem c04_bodiless_no_body (d : RespIn) (date : Bytes)
       unfold wpFraming
       simp only [hst.2, if_true, hst.1, List.length_nil, gt_iff_lt, Nat.lt_irrefl, if_false]
       repeat' split
-      all_goals exact ⟨hst.1, hst.2⟩
+      all_goals first
+        | exact ⟨hst.1, hst.2⟩
+        | exact ⟨rfl, rfl⟩
   unfold respond
   simp [hfin.1, hfin.2]
 
@@ -160,16 +162,16 @@ theorem c04_partial_write_exact (b : Backend) (maxBytes : Nat) (q : Cq) (sched :
     let r := (drive b maxBytes { q := q, sched := sched }).2.2
     r.acc ++ cqFlat r.q = cqFlat q ∧ r.out = r.acc.length ∧
     (r.q = [] → r.acc = cqFlat q) := by
+  intro r
+  have hr : r = (driveGo b maxBytes (sched.length + q.length + 2) 0 0 { q := q, sched := sched }).2.2 := rfl
   have inv := driveGo_inv b maxBytes (sched.length + q.length + 2) 0 0 { q := q, sched := sched } h
+  rw [← hr] at inv
   have hb := inv.bytes
   have ho := inv.out
   simp only [List.nil_append, List.length_nil, Nat.add_zero, Nat.zero_add] at hb ho
   refine ⟨hb, ho, ?_⟩
   intro he
-  have : (drive b maxBytes { q := q, sched := sched }).2.2.q = [] := he
-  unfold drive at this
-  simp only [] at this
-  rw [this] at hb
+  rw [he] at hb
   simpa [cqFlat] using hb
 
 /-! ## no CR / LF from request-derived data -/
@@ -253,7 +255,7 @@ def exStream : RespIn :=
 
 example : HandlerSane exStatic :=
   ⟨by decide, by decide, by decide, by decide,
-   by intro _ _ v hv _; simp [exStatic, Hdrs.get, Hdrs.sameName, eqIcase] at hv; subst hv; decide,
+   by intro _ _ v hv _; simp [exStatic, Hdrs.get, Hdrs.sameName, eqIcase] at hv; obtain ⟨_, rfl⟩ := hv; decide,
    rfl, ⟨by unfold chunkSizeOk; decide, by intro p hp; simp [exStatic] at hp⟩⟩
 
 example : HandlerSane exStream :=
